@@ -211,7 +211,7 @@ class C16(Check):
                                                 'status_map': st.sampled_from([None, None, {'2001': 404, '-32601': 404}, {'2002': 409, '-32602': 422, '2001': 404}])}),
             'path': st.sampled_from(['/api', '/', '/api/v1', '/api', '/', '/api/v1', '/rpc/', '']),
             'late_error': st.integers(0, 3).map(lambda n: n == 0),
-            'naming': st.sampled_from(['plain', 'plain', 'plain', 'case-twins', 'dotted-twins']),
+            'naming': st.sampled_from(['plain', 'plain', 'plain', 'case-twins', 'dotted-twins', 'rpc-prefix']),
         })
 
     def corpus(self):
@@ -230,6 +230,9 @@ class C16(Check):
                                 m(doc='none', annot={**annot, 'errors': 'own', 'error_names': ['Custom2002'], 'prefix': 'Pfx2'}),
                                 m(doc='none', annot={**annot, 'errors': 'none'}, alias=True)]})
         # explicit result schemas / docstring extractor with DIFFERENT errors per method (error schemas are built from a shared template)
+        for kind in ('openrpc', 'openapi-3.1.0'):
+            out.append({'kind': kind, 'extractors': ['pydantic'], 'endpoints': 1, 'generations': 1, 'path': '/api', 'spec_opts': opts, 'naming': 'rpc-prefix',
+                        'methods': [m(doc='none', annotated=False), m(doc='summary', annotated=False)]})
         for kind, ex in (('openapi-3.1.0', ['docstring']), ('openrpc', ['docstring']), ('openapi-3.1.0', ['pydantic', 'docstring'])):
             out.append({'kind': kind, 'extractors': ex, 'endpoints': 1, 'generations': 1, 'path': '/api', 'spec_opts': opts, 'late_error': True,
                         'methods': [m(doc='raises', annotated=False), m(doc='full', annot={**annot, 'errors': 'none'})]})
@@ -360,6 +363,8 @@ class C16(Check):
                 exposed = ['get_user', 'getUser', 'add_user', 'addUser'][i % 4]
             elif naming == 'dotted-twins':    # distinct dotted names with the same last segment (versioned APIs)
                 exposed = f'v{i + 1}.add'
+            elif naming == 'rpc-prefix':      # names under the protocol's reserved-for-extensions prefix: registered methods like any other
+                exposed = f'rpc.meth{i}'
             reg = registries[i % spec['endpoints']]
             if view:
                 cls = ns[f'View{i}']
